@@ -252,22 +252,37 @@ class EvaluateRealDouble : public EvaluateDouble<RealDouble>
     RCP<const Basic> floor(const Basic &x) const override
     {
         SYMENGINE_ASSERT(is_a<RealDouble>(x))
+        double d = down_cast<const RealDouble &>(x).i;
+        if (not std::isfinite(d)) {
+            // inf, -inf, nan have no integer value (mpz_set_d would raise SIGFPE)
+            return x.rcp_from_this();
+        }
         integer_class i;
-        mp_set_d(i, std::floor(down_cast<const RealDouble &>(x).i));
+        mp_set_d(i, std::floor(d));
         return integer(std::move(i));
     }
     RCP<const Basic> ceiling(const Basic &x) const override
     {
         SYMENGINE_ASSERT(is_a<RealDouble>(x))
+        double d = down_cast<const RealDouble &>(x).i;
+        if (not std::isfinite(d)) {
+            // inf, -inf, nan have no integer value (mpz_set_d would raise SIGFPE)
+            return x.rcp_from_this();
+        }
         integer_class i;
-        mp_set_d(i, std::ceil(down_cast<const RealDouble &>(x).i));
+        mp_set_d(i, std::ceil(d));
         return integer(std::move(i));
     }
     RCP<const Basic> truncate(const Basic &x) const override
     {
         SYMENGINE_ASSERT(is_a<RealDouble>(x))
+        double d = down_cast<const RealDouble &>(x).i;
+        if (not std::isfinite(d)) {
+            // inf, -inf, nan have no integer value (mpz_set_d would raise SIGFPE)
+            return x.rcp_from_this();
+        }
         integer_class i;
-        mp_set_d(i, std::trunc(down_cast<const RealDouble &>(x).i));
+        mp_set_d(i, std::trunc(d));
         return integer(std::move(i));
     }
     RCP<const Basic> erf(const Basic &x) const override
@@ -337,27 +352,42 @@ class EvaluateComplexDouble : public EvaluateDouble<ComplexDouble>
     RCP<const Basic> floor(const Basic &x) const override
     {
         SYMENGINE_ASSERT(is_a<ComplexDouble>(x))
+        const std::complex<double> &z = down_cast<const ComplexDouble &>(x).i;
+        if (not std::isfinite(z.real()) or not std::isfinite(z.imag())) {
+            // non-finite parts have no integer value (mpz_set_d would raise SIGFPE)
+            return x.rcp_from_this();
+        }
         integer_class re, im;
-        mp_set_d(re, std::floor(down_cast<const ComplexDouble &>(x).i.real()));
-        mp_set_d(im, std::floor(down_cast<const ComplexDouble &>(x).i.imag()));
+        mp_set_d(re, std::floor(z.real()));
+        mp_set_d(im, std::floor(z.imag()));
         return Complex::from_two_nums(*integer(std::move(re)),
                                       *integer(std::move(im)));
     }
     RCP<const Basic> ceiling(const Basic &x) const override
     {
         SYMENGINE_ASSERT(is_a<ComplexDouble>(x))
+        const std::complex<double> &z = down_cast<const ComplexDouble &>(x).i;
+        if (not std::isfinite(z.real()) or not std::isfinite(z.imag())) {
+            // non-finite parts have no integer value (mpz_set_d would raise SIGFPE)
+            return x.rcp_from_this();
+        }
         integer_class re, im;
-        mp_set_d(re, std::ceil(down_cast<const ComplexDouble &>(x).i.real()));
-        mp_set_d(im, std::ceil(down_cast<const ComplexDouble &>(x).i.imag()));
+        mp_set_d(re, std::ceil(z.real()));
+        mp_set_d(im, std::ceil(z.imag()));
         return Complex::from_two_nums(*integer(std::move(re)),
                                       *integer(std::move(im)));
     }
     RCP<const Basic> truncate(const Basic &x) const override
     {
         SYMENGINE_ASSERT(is_a<ComplexDouble>(x))
+        const std::complex<double> &z = down_cast<const ComplexDouble &>(x).i;
+        if (not std::isfinite(z.real()) or not std::isfinite(z.imag())) {
+            // non-finite parts have no integer value (mpz_set_d would raise SIGFPE)
+            return x.rcp_from_this();
+        }
         integer_class re, im;
-        mp_set_d(re, std::trunc(down_cast<const ComplexDouble &>(x).i.real()));
-        mp_set_d(im, std::trunc(down_cast<const ComplexDouble &>(x).i.imag()));
+        mp_set_d(re, std::trunc(z.real()));
+        mp_set_d(im, std::trunc(z.imag()));
         return Complex::from_two_nums(*integer(std::move(re)),
                                       *integer(std::move(im)));
     }
